@@ -45,15 +45,20 @@ abbrev IRule := IState → Bool → Except PyErr (Bool × IState)
 
 def isBlank (c : Char) : Bool := c == ' ' || c == '\t'
 
+def isTerminator (c : Char) : Bool := Gen.terminatorChars.contains c.toNat
+
+/-- where the `text` rule stops: the next terminator character in `src` (searched without regard to
+    `posMax`, as the regex search does), or `posMax` if there is none -/
+def textEnd (s : IState) : Nat :=
+  match (s.src.drop s.pos).findIdx? isTerminator with
+  | some j => s.pos + j
+  | none => s.posMax
+
 /-- `rules_inline/text.py` : skip to the next terminator character -/
 def ruleText : IRule := fun s silent =>
-  let rest := s.src.drop s.pos
-  let k := (rest.findIdx? (fun c => Gen.terminatorChars.contains c.toNat))
-  let pos' := match k with
-    | some j => s.pos + j
-    | none => s.posMax                      -- no terminator up to the end of `src`
-  if pos' == s.pos then .ok (false, s)
-  else .ok (true, { s with pending := if silent then s.pending else s.pending ++ (s.src.take pos').drop s.pos, pos := pos' })
+  if textEnd s == s.pos then .ok (false, s)
+  else .ok (true, { s with pending := if silent then s.pending else s.pending ++ (s.src.take (textEnd s)).drop s.pos,
+                           pos := textEnd s })
 
 def skipBlanks (src : List Char) (pos max : Nat) : Nat → Nat
   | 0 => pos
